@@ -63,7 +63,12 @@ def cases(draw):
          # with a validation step the machine also builds the right image's cost volume: judged by the same reference with
          # the two images exchanged and the interval mirrored
          "with_right": (not oversize) and draw(st.integers(0, 2)) == 0}
-    if grid:
+    if grid and b - a >= 2 and draw(st.booleans()):
+        # intervals that share a common core: lower bounds within one sample of the global minimum, upper bounds within one
+        # sample of the global maximum (every pixel searches the disparities in between)
+        p["grid_min"] = draw(st.lists(st.lists(st.integers(a, a + 1), min_size=W, max_size=W), min_size=H, max_size=H))
+        p["grid_max"] = draw(st.lists(st.lists(st.integers(b - 1, b), min_size=W, max_size=W), min_size=H, max_size=H))
+    elif grid:
         gmin = draw(st.lists(st.lists(st.integers(a, b), min_size=W, max_size=W), min_size=H, max_size=H))
         gext = draw(st.lists(st.lists(st.integers(0, 2), min_size=W, max_size=W), min_size=H, max_size=H))
         p["grid_min"] = gmin
